@@ -51,6 +51,21 @@ fn draw_plan_a(rng: &mut Prng, n: usize, seeds: Vec<[u8; 32]>) -> WorldPlan {
         }
         threads.push(ops);
     }
+    // entropy fault E7: calls on one message and key whose generator outputs agree on their first
+    // 32 or 64 bits and differ afterwards - a salt derived from that little entropy repeats
+    if rng.chance(1, 2) {
+        let prefix = rng.next_u64();
+        let bytes = if rng.chance(1, 2) { 4 } else { 8 };
+        let key = rng.usize_below(seeds.len());
+        for _ in 0..2 + rng.usize_below(2) {
+            let t = rng.usize_below(threads.len());
+            let at = rng.usize_below(threads[t].len() + 1);
+            threads[t].insert(
+                at,
+                Op::Sign { key, msg: common_msg.clone(), stream: rng.next_u64(), mode: Some(Mode::SharedPrefix { prefix, bytes }), norm_rejects: 0, compress_fails: 0 },
+            );
+        }
+    }
     WorldPlan {
         n,
         key_seeds: seeds,
@@ -58,6 +73,7 @@ fn draw_plan_a(rng: &mut Prng, n: usize, seeds: Vec<[u8; 32]>) -> WorldPlan {
         switch_exp: if rng.chance(1, 6) { None } else { Some(*rng.pick(&[5u32, 7, 9, 10, 11, 12, 14])) },
         boundary: rng.below(257) as u32,
         threads,
+        align: None,
     }
 }
 
@@ -83,9 +99,12 @@ fn collect<V: Variant>(plan: &WorldPlan, keys: Keys<V>, run: u64, st: &mut Stats
         for (i, r) in ops.iter().enumerate() {
             st.evaluations += 1;
             match r {
-                OpResult::Sig { bytes, preempted, .. } => {
+                OpResult::Sig { bytes, preempted, trace } => {
                     if *preempted > 0 {
                         st.inc("sign.preempted_mid_call");
+                    }
+                    for (k, v) in trace.landed.iter() {
+                        st.add(&format!("fault_landed.{}", k), *v);
                     }
                     match salt_of(bytes) {
                         Some(s) => out.push(((run << 20) | ((t as u64) << 12) | i as u64, s, bytes[41..].to_vec())),
@@ -228,6 +247,7 @@ fn plan_b(n: usize, key_seed: [u8; 32], threads: usize, calls: usize, sched_seed
                     .collect()
             })
             .collect(),
+        align: None,
     }
 }
 
@@ -360,6 +380,88 @@ fn run_b(n: usize, key_seed: [u8; 32], threads: usize, calls: usize, procs: usiz
     Ok(all)
 }
 
+// ---- (b') real generator, deep batch -----------------------------------------
+//
+// 2-4 threads sign with one shared key under the real generator in the instrumented build:
+// pre-emption at function entries, aligned starts (two sign calls begin side by side and their first
+// steps are interleaved finely). A generator whose per-call state is claimed from shared state by a
+// racy read-modify-write hands the same state to two calls that start together.
+
+fn deep_run(seed: u64, run: u64, shared: &world::KeyEntry<V512>) -> RunOutcome {
+    let mut rng = Prng::new(report::run_seed(seed, "C08deep", run));
+    let mut out = RunOutcome::default();
+    let kp = match shared.load() {
+        Ok(kp) => kp,
+        Err(_) => {
+            out.stats.inc("harness.pool_key_not_loadable");
+            return out;
+        }
+    };
+    let keys: Keys<V512> = Arc::new(vec![kp]);
+    let nthreads = 2 + rng.usize_below(3);
+    let calls = 3 + rng.usize_below(4);
+    let msg = b"the same message, signed again and again".to_vec();
+    let threads: Vec<Vec<Op>> = (0..nthreads).map(|_| (0..calls).map(|_| Op::Sign { key: 0, msg: msg.clone(), stream: 0, mode: None, norm_rejects: 0, compress_fails: 0 }).collect()).collect();
+    let plan = WorldPlan {
+        n: 512,
+        key_seeds: vec![shared.seed],
+        sched_seed: rng.next_u64(),
+        switch_exp: Some(*rng.pick(&[8u32, 10, 12])),
+        boundary: 64,
+        threads,
+        align: if rng.chance(5, 6) { Some((*rng.pick(&[16u32, 64, 256, 1024]), *rng.pick(&[1u32, 2, 3]))) } else { None },
+    };
+    let mut st = Stats::default();
+    st.inc("runs");
+    st.inc("runs.b_deep_real_generator");
+    match collect::<V512>(&plan, keys, 0, &mut st) {
+        Err((class, detail)) => {
+            let mut doc = plan.to_json();
+            doc.as_object_mut().unwrap().insert("deep".into(), json!(true));
+            out.violations.push(Violation { property: PROP, class, detail, replay: doc, run: (1 << 41) + 100 + run });
+        }
+        Ok(salts) => {
+            st.add("b.deep_salts", salts.len() as u64);
+            let labelled: Vec<(String, [u8; 40])> = salts.iter().map(|(tag, s, _)| (format!("thread{}-call{}", (tag >> 12) & 0xff, tag & 0xfff), *s)).collect();
+            for (_, s) in &labelled {
+                st.distinct.insert(crate::rng::hash_bytes(8, s));
+            }
+            if let Some((class, detail)) = judge_salts(&labelled, "real generator, calls starting side by side") {
+                let mut doc = plan.to_json();
+                doc.as_object_mut().unwrap().insert("deep".into(), json!(true));
+                out.violations.push(Violation { property: PROP, class, detail: format!("deep run {}: {}", run, detail), replay: doc, run: (1 << 41) + 100 + run });
+            }
+        }
+    }
+    out.stats = st;
+    out
+}
+
+/// entry of the deep binary: `falcon-sim deepruns C08 <tier> <seed> <outfile>`
+pub fn deepruns_main(tier: Tier, seed: u64, outfile: &str) -> i32 {
+    let w = report::workers();
+    let runs = if tier == Tier::Quick { 48u64 } else { 1500 };
+    let pool: KeyPool<V512> = KeyPool::build(report::run_seed(seed, "c08-deep-pool", 0), 1, 0, w);
+    if pool.keys.is_empty() {
+        eprintln!("HARNESS-ERROR: deep key pool could not be built");
+        return 2;
+    }
+    let mut out = report::parallel_runs(runs, w, |run| deep_run(seed, run, &pool.keys[0]));
+    for (run, what) in report::take_dead_runs(&mut out.stats) {
+        out.violations.push(Violation {
+            property: PROP,
+            class: format!("run's process died: {}", what),
+            detail: format!("deep run {}", run),
+            replay: json!({"kind": "rerun"}),
+            run: (1 << 41) + 100 + run,
+        });
+    }
+    match std::fs::write(outfile, out.to_bytes()) {
+        Ok(_) => 0,
+        Err(_) => 2,
+    }
+}
+
 /// duplicates / constant bytes over a list of labelled salts
 fn judge_salts(all: &[(String, [u8; 40])], what: &str) -> Option<(String, String)> {
     let mut seen: BTreeMap<[u8; 40], &str> = BTreeMap::new();
@@ -397,7 +499,7 @@ pub fn replay(doc: &Value) -> Option<String> {
                     let expect = doc.get("violation").and_then(|v| v.as_str()).unwrap_or("");
                     let labelled: Vec<(String, [u8; 40])> = s.iter().map(|(t, s, _)| (format!("{:x}", t), *s)).collect();
                     if judge_salts(&labelled, "x").map(|c| c.0.starts_with("salt repeated")).unwrap_or(false) {
-                        if expect.starts_with("two sign calls") {
+                        if expect.starts_with("two sign calls") || expect.starts_with("salt repeated") {
                             Some(expect.to_string())
                         } else {
                             Some("salt repeated (simulated entropy, whole batch)".to_string())
@@ -414,6 +516,18 @@ pub fn replay(doc: &Value) -> Option<String> {
             let mut st = Stats::default();
             let all = run_b(n, seed, doc.get("threads")?.as_u64()? as usize, doc.get("calls")?.as_u64()? as usize, doc.get("procs")?.as_u64()? as usize, doc.get("pcalls")?.as_u64()? as usize, &mut st).ok()?;
             judge_salts(&all, "real generator").map(|c| c.0)
+        }
+        "real_generator_volume" => {
+            // not bit-replayable (real entropy): the batch is repeated and judged again
+            let seed = doc.get("seed")?.as_u64()?;
+            let tier = if doc.get("tier")?.as_str()? == "thorough" { Tier::Thorough } else { Tier::Quick };
+            let ctx = context(tier, seed).ok()?;
+            let na = ctx.runs512 + ctx.runs1024 + 2;
+            let out = report::parallel_runs(ctx.vol.0, report::workers(), |run| dispatch(&ctx, seed, na + run));
+            let mut rep = Report::new(PROP, tier, seed);
+            rep.absorb(out);
+            let vol: Vec<_> = std::mem::take(&mut rep.stats.blobs).into_iter().filter(|(t, _)| *t >= VOL_TAG && *t < (1 << 62)).collect();
+            judge_volume(&vol).0.map(|c| c.0)
         }
         "salt_bits" => {
             // statistical verdict over a whole batch: recompute it
@@ -437,13 +551,15 @@ pub struct Ctx {
     /// (threads, calls, processes, calls per process) of sub-check (b)
     pub b: (usize, usize, usize, usize),
     pub key_seed_b: [u8; 32],
+    /// (processes, calls per process) of the volume batch under the real generator
+    pub vol: (u64, usize),
 }
 
 pub fn context(tier: Tier, seed: u64) -> Result<Ctx, String> {
     let w = report::workers();
-    let (runs512, runs1024, b) = match tier {
-        Tier::Quick => (260u64, 60u64, (8usize, 64usize, 4usize, 16usize)),
-        Tier::Thorough => (12000u64, 3000u64, (8, 1000, 16, 125)),
+    let (runs512, runs1024, b, vol) = match tier {
+        Tier::Quick => (260u64, 60u64, (8usize, 64usize, 4usize, 16usize), (16u64, 12_500usize)),
+        Tier::Thorough => (12000u64, 3000u64, (8, 1000, 16, 125), (64, 50_000)),
     };
     let pseed = report::run_seed(seed, "pool", 0);
     let p512: KeyPool<V512> = KeyPool::build(pseed, 2, 0, w);
@@ -452,7 +568,7 @@ pub fn context(tier: Tier, seed: u64) -> Result<Ctx, String> {
         return Err("key pool could not be built on the current tree".into());
     }
     let mut rng = Prng::new(report::run_seed(seed, "C08b", 0));
-    Ok(Ctx { p512, p1024, runs512, runs1024, b, key_seed_b: rng.seed32() })
+    Ok(Ctx { p512, p1024, runs512, runs1024, b, key_seed_b: rng.seed32(), vol })
 }
 
 /// one run of sub-check (b): returns the observed salts as blobs, judged inside the run
@@ -490,14 +606,78 @@ fn run_b_outcome(ctx: &Ctx, which: u64) -> RunOutcome {
     out
 }
 
+const VOL_TAG: u64 = 1 << 56;
+
+/// one process of the volume batch: `calls` signatures of short messages with one Falcon-512 key
+/// under the real generator; the salts go to the parent, which looks for repeats over all processes
+/// (a generator with fewer than ~36 bits of entropy per salt repeats itself within a quick batch)
+fn run_vol(ctx: &Ctx, which: u64) -> RunOutcome {
+    let mut out = RunOutcome::default();
+    let mut st = Stats::default();
+    st.inc("runs");
+    st.inc("runs.b_volume_real_generator");
+    let (sk, _pk) = match ctx.p512.keys[0].load() {
+        Ok(k) => k,
+        Err(e) => {
+            st.inc("harness.pool_key_not_loadable");
+            st.notes.insert(format!("pool key could not be decoded: {}", e));
+            out.stats = st;
+            return out;
+        }
+    };
+    let real = world::SignPlan { stream_seed: 0, mode: None, fire: vec![] };
+    for i in 0..ctx.vol.1 {
+        let msg = [(i & 0xff) as u8, (which & 0xff) as u8];
+        if let (Ok(sig), _) = world::sign_sim::<V512>(&sk, &msg[..1 + (i & 1)], &real, None) {
+            if let Some(s) = salt_of(&V512::sig_to_bytes(&sig)) {
+                st.blobs.push((VOL_TAG | (which << 32) | i as u64, s.to_vec()));
+            }
+        }
+        st.evaluations += 1;
+    }
+    out.stats = st;
+    out
+}
+
+/// repeats and bit balance over the salts of the volume batch
+fn judge_volume(blobs: &[(u64, Vec<u8>)]) -> (Option<(String, String)>, f64) {
+    let mut seen: BTreeMap<&[u8], u64> = BTreeMap::new();
+    let mut bits = [0u64; 320];
+    for (tag, s) in blobs {
+        if let Some(prev) = seen.insert(&s[..], *tag) {
+            let label = |t: u64| format!("process {} call {}", (t >> 32) & 0xffffff, t & 0xffff_ffff);
+            return (Some(("salt repeated (real generator, volume batch)".to_string(), format!("{} and {}: {} ({} salts seen before the repeat)", label(prev), label(*tag), hex(s), seen.len()))), 0.0);
+        }
+        for i in 0..320 {
+            bits[i] += ((s[i / 8] >> (7 - i % 8)) & 1) as u64;
+        }
+    }
+    let n = blobs.len() as f64;
+    let mut worst = 0.0f64;
+    if blobs.len() >= 2000 {
+        for i in 0..320 {
+            let dev = (bits[i] as f64 - n / 2.0).abs() / (n.sqrt() / 2.0);
+            if dev > worst {
+                worst = dev;
+            }
+            if dev > 6.5 {
+                return (Some(("salt bit position biased or constant (real generator, volume batch)".to_string(), format!("bit {} set in {} of {} salts", i, bits[i], blobs.len()))), worst);
+            }
+        }
+    }
+    (None, worst)
+}
+
 fn dispatch(ctx: &Ctx, seed: u64, run: u64) -> RunOutcome {
     let na = ctx.runs512 + ctx.runs1024;
     if run < ctx.runs1024 {
         run_a::<V1024>(seed, run, &ctx.p1024)
     } else if run < na {
         run_a::<V512>(seed, run, &ctx.p512)
-    } else {
+    } else if run < na + 2 {
         run_b_outcome(ctx, run - na)
+    } else {
+        run_vol(ctx, run - na - 2)
     }
 }
 
@@ -517,8 +697,26 @@ fn batch_a(rep: &mut Report, tier: Tier, seed: u64) -> Option<()> {
     let w = report::workers();
     let ctx = context(tier, seed).ok()?;
     // sub-check (b) runs are scheduled in the same batch (two extra runs)
-    let out = report::parallel_runs(ctx.runs512 + ctx.runs1024 + 2, w, |run| dispatch(&ctx, seed, run));
+    let out = report::parallel_runs(ctx.runs512 + ctx.runs1024 + 2 + ctx.vol.0, w, |run| dispatch(&ctx, seed, run));
     rep.absorb(out);
+    // the volume batch is judged here, over all its processes
+    let (vol, rest): (Vec<_>, Vec<_>) = std::mem::take(&mut rep.stats.blobs).into_iter().partition(|(t, _)| *t >= VOL_TAG && *t < (1 << 62));
+    rep.stats.blobs = rest;
+    rep.stats.add("b.volume_salts", vol.len() as u64);
+    for (_, s) in vol.iter().step_by(64) {
+        rep.stats.distinct.insert(crate::rng::hash_bytes(9, s));
+    }
+    let (verdict, worst) = judge_volume(&vol);
+    rep.extra.insert("b_volume_worst_bit_deviation_sigma".into(), json!((worst * 100.0).round() / 100.0));
+    if let Some((class, detail)) = verdict {
+        rep.violations.push(Violation {
+            property: PROP,
+            class,
+            detail,
+            replay: json!({"kind": "real_generator_volume", "seed": seed, "tier": tier.name()}),
+            run: (1 << 40) + 2,
+        });
+    }
     Some(())
 }
 
@@ -604,7 +802,17 @@ pub fn check(tier: Tier, seed: u64) -> i32 {
         return 2;
     }
     evaluate_a(&mut rep);
-    rep.rule = "a case is one sign call whose salt (bytes 1..41 of the encoded signature) enters the history: (a) under simulator-owned uniform entropy, 1-6 baton-scheduled threads x 4-15 calls over two shared keys with half of the calls on one common message, some with forced retries; (b) under the real thread_rng, threads x calls, fresh child processes, fresh processes that generate the key from its seed and sign on their main thread, a clone phase (a key that has signed is cloned, original and copy sign alternately), 200 (1200) short-lived threads signing once each, and a long single-thread history (3000 / 1500 calls in quick, 20000 / 8300 in thorough) on one message and one key; every observed salt is non-trivial; distinct = distinct salt values".into();
+    match crate::props::run_deep_batch(PROP, tier, seed) {
+        Ok(Some(o)) => rep.absorb(o),
+        Ok(None) => {
+            rep.stats.notes.insert("NOTE: no instrumented (deep) build available; the side-by-side batch under the real generator was skipped".into());
+        }
+        Err(e) => {
+            eprintln!("HARNESS-ERROR: {}", e);
+            return 2;
+        }
+    }
+    rep.rule = "a case is one sign call whose salt (bytes 1..41 of the encoded signature) enters the history: (a) under simulator-owned uniform entropy, 1-6 baton-scheduled threads x 4-15 calls over two shared keys with half of the calls on one common message, some with forced retries, and in half of the runs 2-3 calls on one message and key whose streams agree on their first 32 or 64 bits only (E7); (b) under the real thread_rng, threads x calls, fresh child processes, fresh processes that generate the key from its seed and sign on their main thread, a clone phase (a key that has signed is cloned, original and copy sign alternately), 200 (1200) short-lived threads signing once each, and a long single-thread history (3000 / 1500 calls in quick, 20000 / 8300 in thorough) on one message and one key, a volume batch (16 x 12500 signatures in quick, 64 x 50000 in thorough, one process each) whose salts must not repeat over the whole batch, and a deep batch (instrumented build: 2-4 threads x 3-6 calls, pre-emption at function entries, calls starting side by side); every observed salt is non-trivial; distinct = distinct salt values".into();
     rep.assumptions = vec![
         "(a) masks, by construction, a generator that is not the hooked one; (b) exists for that case and is not bit-replayable (it observes real OS entropy); its verdict depends on the values only through collisions (probability < 2^-200)".into(),
         "bit balance: every one of the 320 salt bit positions must be set in N/2 +- 6.3*sqrt(N)/2 of N >= 2000 salts".into(),
